@@ -12,5 +12,6 @@ OL6 == <<"addf", "addf16", "addi", "addp", "chc", "chw", "cilc", "cirn", "clc", 
 OL7 == <<"dpc", "expf", "hlt", "incc", "jc", "jcmpa", "jcmpl", "jcmpo", "jcmpria", "jcmprio", "je", "jgt0f", "jo", "jri", "jria", "jrio", "m2rri", "mod", "mulc", "mult", "multf", "multf16", "multp">>
 OL8 == <<"nand", "nor", "not", "or", "r2mri", "r2owaa", "r2s", "ro2r", "ro2rri", "rsc", "s2r", "saj", "sic", "sicv2", "sicv3", "sub", "xnor">>
 OL9 == <<"adc", "add", "addf", "addf16", "addi", "addp", "and", "chc", "chw", "cil", "cilc", "cir", "cirn", "clc", "clr", "cmpr", "cmprlt", "cmpv", "cpy", "cset", "dec", "div", "divf", "divf16", "divp", "dpc", "expf", "hlt", "i2r", "i2rw", "inc", "incc", "j", "ja", "jc", "jcmpa", "jcmpl", "jcmpo", "jcmpria", "jcmprio", "je", "jgt0f", "jo", "jri", "jria", "jrio", "jz", "m2r", "m2rri", "mod", "mulc", "mult", "multf", "multf16", "multp", "nand", "nop", "nor", "not", "or", "r2m", "r2mri", "r2o", "r2owa", "r2owaa", "r2s", "ro2r", "ro2rri", "rsc", "rset", "s2r", "saj", "sbc", "sic", "sicv2", "sicv3", "sub", "xnor", "xor">>
-OpLists == {OL1, OL2, OL3, OL4, OL5, OL6, OL7, OL8, OL9}
+OL10 == <<"j", "ja", "jcmpa", "jcmpl", "jcmpo", "jo", "nop", "saj">>
+OpLists == {OL10, OL1, OL2, OL3, OL4, OL5, OL6, OL7, OL8, OL9}
 =============================================================================
